@@ -291,3 +291,27 @@ def same_observable(a: Result, b: Result) -> bool:
     if a.klass == 'rejected' and set(a.outputs) != set(b.outputs):
         return False
     return True
+
+
+class InProcessTimeout(BaseException):
+    """Raised inside code under test that is called in-process and exceeded its time limit."""
+
+
+class time_limit:
+    """with time_limit(3): ...   (SIGALRM based; for the few API-level calls made inside a worker process)"""
+
+    def __init__(self, seconds):
+        self.seconds = seconds
+
+    def _fire(self, signum, frame):
+        raise InProcessTimeout()
+
+    def __enter__(self):
+        self.old = signal.signal(signal.SIGALRM, self._fire)
+        signal.setitimer(signal.ITIMER_REAL, self.seconds)
+
+    def __exit__(self, *exc):
+        signal.setitimer(signal.ITIMER_REAL, 0)
+        signal.signal(signal.SIGALRM, self.old)
+        return False
+
